@@ -112,6 +112,13 @@ func (s *Shard) Violate(key, desc string, replay any) {
 	s.mu.Unlock()
 }
 
+// NViol returns the number of violations recorded so far.
+func (s *Shard) NViol() int {
+	s.mu.Lock()
+	defer s.mu.Unlock()
+	return int(s.Counters["violations_raw"])
+}
+
 // Inconc records an inconclusive sub-workload.
 func (s *Shard) Inconc(what string) {
 	s.mu.Lock()
